@@ -425,3 +425,40 @@ func AllContractCases(thorough bool) []*Case {
 	out = append(out, EntityCases(thorough)...)
 	return out
 }
+
+// AnnotationCases: descriptions, flatten, key annotations.
+func AnnotationCases() []*Case {
+	var out []*Case
+	add := func(id string, f *File) {
+		out = append(out, &Case{ID: "annot:" + id, Family: "annotations", Coord: "annotations|" + id, P: &Program{Files: []*File{f}}})
+	}
+	{
+		f := file("t/v1", "a")
+		d := obj("Foo", &Field{Name: "name", T: T(TString), Desc: "the name"}, &Field{Name: "other", T: T(TInt32), Desc: "body description", Required: true})
+		d.Desc = []string{"Foo is a thing", "second line"}
+		f.Add(d)
+		e := enumD("Kind", "ONE", "TWO")
+		e.Desc = []string{"Kind doc"}
+		e.Options[0].Desc = "first"
+		f.Add(e)
+		add("descriptions", f)
+	}
+	{
+		f := file("t/v1", "a")
+		inner := obj("Inner", fld("x", T(TString)), fld("y", T(TInt32)))
+		f.Add(inner)
+		f.Add(obj("Foo", &Field{Name: "inner", T: RefTo(inner, ""), Flatten: true}, fld("z", T(TBool))))
+		add("flatten-ref", f)
+	}
+	{
+		f := file("t/v1", "a")
+		f.Add(obj("Foo", &Field{Name: "inner", T: InlineOf(obj("", fld("x", T(TString)))), Flatten: true}))
+		add("flatten-inline", f)
+	}
+	{
+		f := file("t/v1", "a")
+		f.Add(obj("Foo", &Field{Name: "parentId", T: T(TKeyID62), Attrs: []string{`foreign = "other.v1.Parent"`}}))
+		add("foreign-key", f)
+	}
+	return out
+}
